@@ -386,6 +386,10 @@ func (q *OutQueue) addChunk(data []byte) error {
 // Write will create packets out of the given byte stream. Make sure that the writes are as large as possible,
 // otherwise Packet will get quite small.
 func (q *OutQueue) Write(b []byte, mtu uint32) (n int, err error) {
+	if mtu == 0 {
+		// Cutting data into fragments of no bytes would never end
+		return 0, errors.Errorf("invalid fragment size: %d", mtu)
+	}
 	err = q.waitEmptyQueue()
 	if err != nil {
 		return
